@@ -5,7 +5,7 @@
    `kreach k`: the state of one host's kernel after ANY sequence of syscalls
    (any fd, any argument) and ANY inbound packets, for any KernelConfig. *)
 From TV.Lib Require Import Base.
-From TV.NetTcp Require Import Gen Model Facts C16_proofs C13_proofs C13_own C13_part.
+From TV.NetTcp Require Import Gen Model Facts C16_proofs C13_proofs C13_own C13_part C13_world.
 Open Scope N_scope.
 
 (* The socket table and its two indexes stay coherent: fds are unique, every
@@ -136,6 +136,51 @@ Theorem c13_listeners_held : forall c a es,
   (forall x s, In x (ready_of (okk o)) -> In (x, s) (socks (okk o)) -> is_listener s = false).
 Proof. exact listeners_held_lemma. Qed.
 
+(* WORLD HISTORIES.  `run (init_world c v n) es`: n hosts, the wire and the
+   application's handle table (slots), driven by ANY harness script es
+   (listen, connect, poll, cancel, accept, write, read, shutdown, close on any
+   slot; egress; deliver / drop / duplicate / flush of any packet on the wire).
+   `held w h` = the fds of the handles that exist on host h; `acc_hist` = the
+   fds accept returned on host h along the history.
+   Simulation: every world step is, on each host, a (possibly empty) sequence
+   of `ostep` steps — so each host's kernel is the kernel of a host-with-
+   application run whose held fds are exactly the world's handles on that
+   host and whose accept log is the world's accept history.  (Proved through
+   `sim_step`; needs that typed handles stay well-typed — a pending connect
+   keeps its TCB, a UdpSocket stays a TCB-less datagram socket — which is a
+   frame property of every kernel operation, C13_world.v.) *)
+Theorem c13_world_projects : forall c v n es,
+  let w := fst (run (init_world c v n) es) in
+  forall h k, get_host w h = Some k ->
+  exists oes, let o := orun (oinit c [host_ip v h]) oes in
+    okk o = k /\ acc_log o = acc_hist (init_world c v n) es h /\ NoDup (held w h) /\
+    forall fd, In fd (owned o) <-> In fd (held w h).
+Proof. exact world_projects_lemma. Qed.
+
+(* Ownership for world histories: every socket-table entry of every host is
+   held by one of the application's handles on that host, queued for accept,
+   kernel-closed, or a handshaking child covered by a live listener. *)
+Theorem c13_world_owned : forall c v n es,
+  let w := fst (run (init_world c v n) es) in
+  forall h k, get_host w h = Some k ->
+  forall fd s, In (fd, s) (socks k) ->
+    In fd (held w h) \/ In fd (ready_of k) \/ fd_closed s = true \/
+    (is_synrcvd s = true /\ fd_closed s = false /\ exists bs, s_bound s = Some bs /\ has_listener k bs).
+Proof. exact world_owned_lemma. Qed.
+
+(* accept-once for world histories: accept never returns the same socket
+   twice, no two handles refer to the same socket, nothing that a handle
+   refers to (in particular nothing accept has returned) is still queued for
+   accept, and neither queued nor accepted sockets are still handshaking. *)
+Theorem c13_world_accept_once : forall c v n es,
+  let w := fst (run (init_world c v n) es) in
+  forall h k, get_host w h = Some k ->
+  NoDup (acc_hist (init_world c v n) es h) /\ NoDup (held w h) /\ NoDup (ready_of k) /\
+  (forall x, In x (acc_hist (init_world c v n) es h) -> ~ In x (ready_of k)) /\
+  (forall x, In x (held w h) -> ~ In x (ready_of k)) /\
+  (forall x s, In x (ready_of k ++ acc_hist (init_world c v n) es h) -> In (x, s) (socks k) -> is_synrcvd s = false).
+Proof. exact world_accept_once_lemma. Qed.
+
 (* Reclamation, the proved part: (1) after every egress pass no socket is left
    that is kernel-closed and terminal; (2) closing a socket that holds no live
    connection (listener handled separately, datagram, handshaking, reset,
@@ -223,6 +268,9 @@ Print Assumptions c13_accept_once.
 Print Assumptions c13_accept_logs.
 Print Assumptions c13_owned.
 Print Assumptions c13_listeners_held.
+Print Assumptions c13_world_projects.
+Print Assumptions c13_world_owned.
+Print Assumptions c13_world_accept_once.
 Print Assumptions c13_reclaimed_partial.
 Print Assumptions c13_close_open.
 Print Assumptions c13_reclaimed_refuted.
